@@ -18,6 +18,9 @@ type genTx struct {
 func (w *world) pickActor(pred func(*actor) bool) *actor {
 	var cs []*actor
 	for _, a := range w.actors {
+		if a.stranger {
+			continue
+		}
 		if pred == nil || pred(a) {
 			cs = append(cs, a)
 		}
